@@ -11,9 +11,11 @@ import (
 	"encoding/binary"
 	"fmt"
 	"io"
+	"math/rand"
 	"os"
 	"path/filepath"
 	"strconv"
+	"sync"
 	"testing"
 
 	"github.com/anjor/carlet"
@@ -162,9 +164,61 @@ func TestVerifC16Vectors(t *testing.T) {
 			ln := rng.Intn(len(all) + 3)
 			o.Reads = append(o.Reads, c16read(m, int64(off), ln))
 		}
+		o.Reads = append(o.Reads, c16concurrent(m, all, sizes, int64(k))...)
 		out.Emit(o)
 	}
 	t.Logf("vectors=%d large=%d", nvec, nbig)
+}
+
+// c16concurrent: readers on several goroutines, each staying inside its own piece-sized window (so that consecutive reads
+// of different goroutines hit different pieces). A read is judged like any other; only reads that differ from what the
+// concatenation holds are recorded (at most 8), plus one witness read per goroutine.
+func c16concurrent(r io.ReaderAt, concat []byte, sizes []int, seed int64) []c16Read {
+	var out []c16Read
+	if len(concat) < 4 {
+		return out
+	}
+	var mu sync.Mutex
+	var wg sync.WaitGroup
+	starts := []int{0}
+	for _, s := range sizes {
+		starts = append(starts, starts[len(starts)-1]+s)
+	}
+	for g := 0; g < 4; g++ {
+		wg.Add(1)
+		go func(g int) {
+			defer wg.Done()
+			rng := rand.New(rand.NewSource(seed + int64(g)))
+			pi := g % len(sizes)
+			for k := 0; k < 1500; k++ {
+				if k%200 == 0 {
+					pi = rng.Intn(len(sizes))
+				}
+				lo, hi := starts[pi], starts[pi+1]
+				if hi-lo < 1 {
+					pi = (pi + 1) % len(sizes)
+					continue
+				}
+				off := lo + rng.Intn(hi-lo)
+				ln := 1 + rng.Intn(hi-off)
+				rd := c16read(r, int64(off), ln)
+				good := rd.N == ln && (rd.Err == "nil" || (rd.Err == "eof" && off+ln == len(concat))) && bytes.Equal(concat[off:off+ln], func() []byte {
+					b := make([]byte, len(rd.Bytes))
+					for i, x := range rd.Bytes {
+						b[i] = byte(x)
+					}
+					return b
+				}())
+				mu.Lock()
+				if (!good && len(out) < 8) || k == 0 {
+					out = append(out, rd)
+				}
+				mu.Unlock()
+			}
+		}(g)
+	}
+	wg.Wait()
+	return out
 }
 
 type c16Remote struct { // a reader type that is neither FileSplitCarReader nor the HTTP reader (e.g. a custom remote)
